@@ -12,7 +12,7 @@ ValidModel (T2, driver impl/t_valid.c vs extracted model): the tree libyang buil
     instances are then edited through the API (new path, free, change value, move a node to another list entry,
     duplicate + insert) and validated again: the tree now carries old / new / default nodes (auto-deletion, duplicates
     only for new nodes); verdict and class must again be the model's, and rfc_valid of the explicit nodes must agree
-    with the verdict (it does not for moved nodes: finding moved-node-dup-unchecked).
+    with the verdict (this is what caught the former findings moved-node-dup-unchecked and stale-nested-default-case).
 ValidMut (oracle): valid instance and one mutation per rule class (also must / when / leafref, which the Coq models leave
     out) through: XML, JSON, shuffled siblings, parse with validation, parse-only + lyd_validate_module, and
     lyd_new_path construction + validation: every route must give the verdict and class expected by construction."""
@@ -89,9 +89,18 @@ def decorate(rng, m):
             cands = _uniq_candidates(n)
             if cands:
                 us = []
-                for _ in range(rng.choice([1, 1, 2])):
-                    k = min(len(cands), rng.choice([1, 1, 2]))
-                    us.append([p for p, _ in rng.sample(cands, k)])
+                if len(cands) >= 2 and rng.random() < 0.6:
+                    # several statements over different leaves (an entry can be incomplete for one and complete for another)
+                    pool = [p for p, _ in cands]
+                    rng.shuffle(pool)
+                    while pool and len(us) < 3:
+                        k = min(len(pool), rng.choice([1, 1, 2]))
+                        us.append(pool[:k])
+                        pool = pool[k:]
+                else:
+                    for _ in range(rng.choice([1, 1, 2])):
+                        k = min(len(cands), rng.choice([1, 1, 2]))
+                        us.append([p for p, _ in rng.sample(cands, k)])
                 n.__class__ = validenc.SListU
                 n.uniques = us
                 n.unique = None
@@ -111,6 +120,42 @@ def valid_case(rng, **kw):
         if validenc.supported(m):
             return m, ig
     raise RuntimeError("no supported module generated")
+
+
+def unique_family(rng):
+    """(module, instance) aimed at lyd_validate_unique: ONE list with 2-4 unique statements over few leaves with small
+    value domains (paths also through a container, presence or not, and with defaults), 2-6 entries in which every leaf
+    is present with probability 0.6 - incomplete earlier / later sets, agreement through defaults, the two-instance and
+    the hash-table path. The instance is random: valid or not, the expectation comes from validenc.py_violations."""
+    Y = yanggen
+    dom = {"a": ["u", "v"], "b": ["1", "2"], "c": ["s", "t"], "d": ["0", "7"], "x": ["g", "h"], "y": ["m", "n"]}
+    mk = lambda nm: Y.SLeaf(nm, Y.TInt("int8") if nm in ("b", "d") else Y.TString(),      # noqa: E731
+                            default=(dom[nm][0] if rng.random() < 0.3 else None))
+    leaves = [mk(nm) for nm in ("a", "b", "c", "d")]
+    cont = Y.SContainer("p", [mk("x"), mk("y")], presence=rng.random() < 0.5)
+    lst = validenc.SListU("l", ["k"], [Y.SLeaf("k", Y.TString(length=(1, 5)))] + leaves + [cont], userord=rng.random() < 0.3)
+    pool = ["a", "b", "c", "d", "p/x", "p/y"]
+    rng.shuffle(pool)
+    us = []
+    while pool and len(us) < rng.choice([2, 2, 3, 4]):
+        k = min(len(pool), rng.choice([1, 1, 2]))
+        us.append(pool[:k])
+        pool = pool[k:]
+    lst.uniques = us
+    lst.unique = None
+    m = Y.Module("m1", [Y.SContainer("top", [lst, Y.SLeaf("z", Y.TString())])])
+    ents = []
+    for i in range(rng.choice([2, 3, 3, 4, 5, 6])):
+        ch = [Y.DNode(lst.children[0], "k%d" % i)]
+        for lf in leaves:
+            if rng.random() < 0.6:
+                ch.append(Y.DNode(lf, rng.choice(dom[lf.name])))
+        if rng.random() < 0.6:
+            pc = [Y.DNode(x, rng.choice(dom[x.name])) for x in cont.children if rng.random() < 0.6]
+            if pc or cont.presence:
+                ch.append(Y.DNode(cont, children=pc))
+        ents.append(Y.DNode(lst, children=ch))
+    return m, [Y.DNode(m.nodes[0], children=ents + [Y.DNode(m.nodes[0].children[1], "z")])]
 
 
 def valid_instance(rng, m, ig):
@@ -255,6 +300,45 @@ def mut_unique(rng, m, ig, f):
     return "nouniq"
 
 
+def mut_unique_partial(rng, m, ig, f):
+    """a list with several unique statements and at least three entries: two entries agree on a LATER statement while one
+    of them has an incomplete EARLIER statement (a leaf without default missing); the third entry keeps the hash-table
+    path of lyd_validate_unique in play"""
+    sites = []
+    for sc, data, par in contexts(m, f):
+        for n in flat(sc):
+            us = validenc.list_uniques(n) if n.kind == "list" else []
+            if len(us) >= 2:
+                inst = [d for d in data if d.schema is n]
+                if len(inst) >= 2:
+                    sites.append((data, n, inst, us))
+    rng.shuffle(sites)
+    for data, n, inst, us in sites:
+        if len(inst) < 3:
+            new = _fresh_instances(rng, ig, n, inst, 3 - len(inst))
+            if not new or (n.maxel is not None and len(inst) + len(new) > n.maxel):
+                continue
+            pos = max(i for i, d in enumerate(data) if d.schema is n) + 1
+            data[pos:pos] = new
+            inst = inst + new
+        j = rng.randrange(1, len(us))
+        later = {x for x in us[j]}
+        early = [p for u in us[:j] for p in u if p not in later and "/" not in p]
+        early = [p for p in early if validenc.resolve(n.children, p)[0].default is None and
+                 not validenc.resolve(n.children, p)[0].mandatory]
+        if not early:
+            continue
+        a, b = rng.sample(inst, 2)
+        b.children = [x for x in b.children if x.schema.name in n.keys] + [x.clone() for x in a.children if x.schema.name not in n.keys]
+        drop = rng.choice(early)
+        which = rng.choice([a, b, None])
+        for e in ([a, b] if which is None else [which]):
+            e.children = [x for x in e.children if x.schema.name != drop]
+        # entries: put the pair at random positions among the instances (the incomplete one first or last)
+        return "nouniq"
+    return None
+
+
 def mut_unique_dflt(rng, m, ig, f):
     """two entries agree through the default value: one has the leaf explicitly with the default value, the other has
     no instance"""
@@ -340,7 +424,7 @@ def mut_drop_key(rng, m, ig, f):
     return "nokey"
 
 
-MODEL_MUTS = [mut_drop_mand, mut_drop_choice, mut_max, mut_min, mut_dup_key, mut_unique, mut_unique_dflt, mut_dup_llval,
+MODEL_MUTS = [mut_drop_mand, mut_drop_choice, mut_max, mut_min, mut_dup_key, mut_unique, mut_unique_partial, mut_unique_dflt, mut_dup_llval,
               mut_dup_leaf, mut_second_case]
 PARSER_MUTS = [mut_bad_value, mut_drop_key]
 
@@ -390,30 +474,6 @@ def removed_paths(f, g):
             rem.append(x)
     top = [x for x in rem if not any(x != y and x.startswith(y + "/") for y in rem)]
     return top
-
-
-def known_stale_default(m):
-    """does the module have a choice with a default case nested in a case of another choice (finding
-    stale-nested-default-case: after edits a default node of that default case keeps the outer case alive)"""
-    for n in m.all_nodes():
-        if n.kind == "choice" and n.default and n.parent is not None and n.parent.kind == "choice":
-            return True
-    return False
-
-
-def known_unique_default(m):
-    """does the module have a unique leaf with a default value below a presence container or inside a case (libyang counts
-    that default even when it is not in use: finding unique-default-not-in-use)"""
-    for n in m.all_nodes():
-        if n.kind == "list":
-            for u in validenc.list_uniques(n):
-                for p in u:
-                    nodes = validenc.resolve(n.children, p)
-                    if nodes[-1].default is None:
-                        continue
-                    if any(x.kind == "container" and x.presence for x in nodes[:-1]) or len(p.split("/")) != len(nodes):
-                        return True
-    return False
 
 
 # ------------------------------------------------------------------------------------------------
@@ -479,17 +539,22 @@ class ValidModel(Comp):
     def gen(self, rng, tier, scale=1.0):
         pre = []
         for i in range(self.n(tier, 2500, 40000, scale)):
-            m, ig = valid_case(rng, userord=(i % 3 == 0), state=(i % 4 != 1))
-            ig.max_inst = 6 if i % 5 == 0 else 4
-            if i % 11 == 0:
-                ig.max_inst = 9            # parents with a children hash table (LYD_HT_MIN_ITEMS = 4 is reached anyway)
-            f = valid_instance(rng, m, ig)
-            if f is None:
-                continue
-            k = rng.choice([0, 0, 1, 1, 1, 2, 3])
-            g = clone_forest(f)
-            for _ in range(k):
-                rng.choice(MODEL_MUTS)(rng, m, ig, g)
+            if i % 12 == 7:
+                m, g = unique_family(rng)
+                ig = yanggen.InstGen(rng, meta_prob=0.0)
+                f = g
+            else:
+                m, ig = valid_case(rng, userord=(i % 3 == 0), state=(i % 4 != 1))
+                ig.max_inst = 6 if i % 5 == 0 else 4
+                if i % 11 == 0:
+                    ig.max_inst = 9        # parents with a children hash table (LYD_HT_MIN_ITEMS = 4 is reached anyway)
+                f = valid_instance(rng, m, ig)
+                if f is None:
+                    continue
+                k = rng.choice([0, 0, 1, 1, 1, 2, 3])
+                g = clone_forest(f)
+                for _ in range(k):
+                    rng.choice(MODEL_MUTS)(rng, m, ig, g)
             exp = validenc.py_violations(m, g)
             if rng.random() < 0.5:
                 g = shuffled(rng, g)
@@ -509,8 +574,7 @@ class ValidModel(Comp):
             if len(r) != len(cmds) or r[0] != "0" or r[1] != "0":
                 continue                    # module or document rejected by the parser: not a case for the model
             dumps = [x for c, x in zip(cmds, r) if c[0] == "dump"]
-            fields = validenc.fields(m) + ["#e " + (",".join(sorted(exp)) or "-"),
-                                           "#k " + ("1" if known_unique_default(m) else "0"), "#g " + ("1" if known_stale_default(m) else "0")] + \
+            fields = validenc.fields(m) + ["#e " + (",".join(sorted(exp)) or "-")] + \
                 ["#d " + d for d in dumps[:2]] + ["#a " + d for d in dumps[2:]]
             L.append(vline(fields, cmds))
         return L
@@ -543,13 +607,10 @@ class ValidModel(Comp):
                 return ["model:" + out[:100]]
             v, ok, rules, placed, wf = p
             cls = sorted({RULE_CLASS[c] for c in rules if c in RULE_CLASS})
-            kud = "#k 1" in fields
             if k == 0 and placed != "1":
                 items.append("not-placed")
             elif wf[0] != "1":
                 items.append("vschema-not-ok")
-            elif (wf[1] == "1") == kud:
-                items.append("uniq_plain=%s-but-python-says-%s" % (wf[1], kud))
             elif k == 0 and wf == "111" and (v == "0") != (ok == "1"):
                 items.append("theorem-C02_validate_iff_rfc_partial-contradicted")
             elif k == 0:
@@ -570,9 +631,6 @@ class ValidModel(Comp):
             return (None, "crash: " + impl_out)
         mi, ii = self.parts(line, model_out), self.parts(line, impl_out)
         fields = line.split("\t")[1:]
-        kud = "#k 1" in fields
-        stale = "#g 1" in fields
-        moved = any(x.startswith("move ") for x in fields)      # (dupins inserts a duplicate that IS flagged new)
         raw = [x for x in model_out.split(" | ") if not x.startswith("A:")]
         after = [x for x in model_out.split(" | ") if x.startswith("A:")]
         for k, (a, b) in enumerate(zip(mi, ii)):
@@ -585,10 +643,10 @@ class ValidModel(Comp):
                 # the model of the code and the code disagree: is it the code that departs from the RFC verdict?
                 rb = raw[k].split(":")[1]
                 ra = after[0].split(":")[1] if (k > 0 and after) else rb
-                if pb[0] == "0" and (ra if k > 0 else rb) == "0" and not (k > 0 and moved):
+                if pb[0] == "0" and (ra if k > 0 else rb) == "0":
                     return (None, "validation accepted a tree that violates RFC 7950 (the model of the unchanged code "
                                   "answers %s)" % pa[0])
-                if pb[0] != "0" and rb == "1" and not (kud and pb[0] == "nouniq") and not (k > 0 and moved):
+                if pb[0] != "0" and rb == "1":
                     return (None, "validation rejected (%s) a tree that satisfies every modelled RFC 7950 rule" % pb[0])
                 if pb[0] != "0" and pa[0] != "0" and k == 0 and len(pa[2].split(",")) == 1:
                     return (None, "error class %s, the only violated rule class is %s" % (pb[0], pa[2]))
@@ -597,19 +655,6 @@ class ValidModel(Comp):
                 # the model of the code agrees with the code: the disagreement is with the RFC verdict
                 if pb[0] == "dupcase" and pa[1] == "1" and k == 0 and re.search(r":i:dn", impl_out.split(" | ")[2]):
                     return ("empty-np-container-dupcase", "an explicit empty non-presence container counted as data of its case")
-                if pb[0] == "nouniq" and kud and (pa[1] == "1" or "rfc-before=1" in pa[1]):
-                    return ("unique-default-not-in-use", "rejected with data-not-unique although the default value of the unique "
-                                                         "leaf is not in use in these entries")
-                if pb[0] == "0" and k > 0 and moved and "after=0" in pa[1]:
-                    return ("moved-node-dup-unchecked", "lyd_validate_module accepted a tree that holds a duplicate created by "
-                                                        "moving an already validated node")
-                if pb[0] != "0" and k > 0 and moved:
-                    # the moved node (not flagged LYD_NEW) did not trigger the auto-deletion of the stale default instance
-                    # of its leaf; the default instance is then the one validation looks at
-                    return ("moved-node-dup-unchecked", "a moved (un-flagged) node next to a stale default instance: %s" % pb[0])
-                if k > 0 and stale:
-                    return ("stale-nested-default-case", "edited tree: verdict %s differs from the RFC verdict of its explicit "
-                                                         "content (a default node of a nested default case is kept)" % pb[0])
                 if pb[0] == "0":
                     return (None, "validation accepted an instance that violates RFC 7950 (%s)" % model_out[-80:])
                 if pb[0] != "0":
@@ -697,6 +742,60 @@ def extra_json(kind):
 EXTRA_CLASS = {"leafref": "noinst", "must": "nomust", "when": "nowhen", "instid": "noinst", "iffeature": "unknown"}
 
 
+def extra_case(ymod, x, j, cls):
+    """XML / JSON, parse with validation / parse-only + validate, and LYB printed from the parse-only tree"""
+    cmds = [("mod", hexs(ymod), CTX_NO_YANGLIBRARY),
+            ("parse", "t0", "x", PARSE_STRICT, 0, hexs(x)),
+            ("parse", "t1", "j", PARSE_STRICT, 0, hexs(j)),
+            ("parse", "t3", "x", PARSE_ONLY | PARSE_STRICT, 0, hexs(x)), ("val", "t3", 0, "m"),
+            ("parse", "t4", "j", PARSE_ONLY | PARSE_STRICT, 0, hexs(j)), ("val", "t4", 0, "m")]
+    routes = ["v", "v", "pv", "pv"]
+    if cls != "unknown":
+        cmds += [("parse", "t8", "x", PARSE_ONLY | PARSE_STRICT, 0, hexs(x)), ("rt", "t8", "t9", "b", 0, PARSE_STRICT, 0)]
+        routes.append("L2")
+    return vline(["#x " + cls, "#r " + ",".join(routes)], cmds)
+
+
+# when on a choice and on a case (inherited by the data nodes below, lysc_has_when()); a must of another node that reads
+# a node under such a when (the parser has to evaluate the when first)
+WHEN_CHOICE_YANG = """module m1 { yang-version 1.1; namespace "urn:verif:m1"; prefix m1;
+  container wx {
+    leaf sel { type int8; }
+    choice wc { when "sel = 1 or sel = 4";
+      case ca { leaf wa { type string; } container wn { leaf wi { type string; } } }
+      case cb { leaf wb { type string; } } }
+    choice wd {
+      case cc { when "sel = 2 or sel = 4"; leaf wcl { type string; } leaf-list wll { type string; } }
+      case cd { leaf wdl { type string; } } }
+    list wl { key k; leaf k { type string; }
+      choice we { when "k != 'off'"; case e1 { leaf w1 { type string; } } } }
+    leaf mz { type string; must "not(../wa) or ../wa = 'x'"; }
+  }
+}"""
+
+
+def when_choice_instances():
+    """(xml, json, expected class)"""
+    import json
+    out = []
+    for sel, body, cls in (
+            (1, {"wa": "x", "mz": "m"}, "0"), (3, {"wa": "x"}, "nowhen"), (1, {"wn": {"wi": "i"}}, "0"),
+            (2, {"wn": {"wi": "i"}}, "nowhen"), (1, {"wb": "b"}, "0"), (0, {"wb": "b"}, "nowhen"),
+            (2, {"wcl": "c"}, "0"), (1, {"wcl": "c"}, "nowhen"), (4, {"wa": "x", "wll": ["p", "q"], "mz": "m"}, "0"),
+            (3, {"wll": ["p"]}, "nowhen"), (3, {"wdl": "d", "mz": "m"}, "0"),
+            (3, {"wl": [{"k": "on", "w1": "1"}, {"k": "on2"}]}, "0"), (3, {"wl": [{"k": "on", "w1": "1"}, {"k": "off", "w1": "2"}]}, "nowhen")):
+        def xml(o):
+            r = ""
+            for k, v in o.items():
+                for it in (v if isinstance(v, list) else [v]):
+                    r += "<%s>%s</%s>" % (k, xml(it) if isinstance(it, dict) else it, k)
+            return r
+        o = {"sel": sel}
+        o.update(body)
+        out.append(('<wx xmlns="urn:verif:m1">%s</wx>' % xml(o), json.dumps({"m1:wx": o}), cls))
+    return out
+
+
 # lyd_validate_duplicates() through the children hash table: values of one leaf-list whose node hashes (lyd_hash():
 # lyht_hash_multi over module name, node name, value, then the finishing round) are EQUAL although the values differ
 def _hm(h, key):
@@ -735,7 +834,28 @@ def collision_cases():
             cmds = [("mod", hexs(COLLIDE_YANG), CTX_NO_YANGLIBRARY),
                     ("parse", "t0", "x", PARSE_STRICT, 0, hexs(xml)),
                     ("parse", "t3", "x", PARSE_ONLY | PARSE_STRICT, 0, hexs(xml)), ("val", "t3", 0, "m")]
-            L.append(vline(["#x " + (cls or "0"), "#k 0", "#r v,pv"], cmds))
+            L.append(vline(["#x " + (cls or "0"), "#r v,pv"], cmds))
+    return L
+
+
+# witnesses of fixed findings, kept as regression cases: (commands after mod, expected class of the last command)
+REGRESSIONS = {
+    "moved-node-dup-unchecked": "valid\tmod 6d6f64756c65206d31207b2079616e672d76657273696f6e20312e313b206e616d657370616365202275726e3a76657269663a6d31223b20707265666978206d313b206c697374206c207b206b6579206b3b206c656166206b207b207479706520737472696e673b207d206c6561662061207b207479706520737472696e673b207d207d207d 4\tparse t0 x 131072 0 3c6c20786d6c6e733d2275726e3a76657269663a6d31223e3c6b3e313c2f6b3e3c613e41313c2f613e3c2f6c3e3c6c20786d6c6e733d2275726e3a76657269663a6d31223e3c6b3e323c2f6b3e3c613e41323c2f613e3c2f6c3e\tmove t0 2f6d313a6c5b6b3d2731275d2f61 2f6d313a6c5b6b3d2732275d2f6b s\tval t0 0 m\tdump t0 1",
+    "unique-default-not-in-use": "valid\tmod 6d6f64756c65206d31207b2079616e672d76657273696f6e20312e313b206e616d657370616365202275726e3a76657269663a6d31223b20707265666978206d313b206c697374206c207b206b6579206b3b20756e697175652022702f78223b206c656166206b207b207479706520737472696e673b207d20636f6e7461696e65722070207b2070726573656e6365202270223b206c6561662078207b207479706520737472696e673b2064656661756c74202264223b207d207d207d207d 4\tparse t0 x 131072 0 3c6c20786d6c6e733d2275726e3a76657269663a6d31223e3c6b3e313c2f6b3e3c2f6c3e3c6c20786d6c6e733d2275726e3a76657269663a6d31223e3c6b3e323c2f6b3e3c2f6c3e",
+    "stale-nested-default-case": "valid\tmod 6d6f64756c65206d31207b2079616e672d76657273696f6e20312e313b206e616d657370616365202275726e3a76657269663a6d31223b20707265666978206d313b0a20636f6e7461696e657220746f70207b2063686f696365206368207b206d616e6461746f727920747275653b0a202020636173652061207b206c6561662078207b207479706520737472696e673b207d2063686f69636520696e6e6572207b2064656661756c742064313b2063617365206431207b206c6561662079207b207479706520737472696e673b2064656661756c74202235223b207d207d2063617365206432207b206c6561662077207b207479706520737472696e673b207d207d207d207d0a202020636173652062207b206c656166207a207b207479706520737472696e673b207d207d207d206c656166206b656570207b207479706520737472696e673b207d207d207d 4\tparse t0 x 131072 0 3c746f7020786d6c6e733d2275726e3a76657269663a6d31223e3c783e313c2f783e3c6b6565703e6b3c2f6b6565703e3c2f746f703e\tfreepath t0 2f6d313a746f702f78\tval t0 0 m\tdump t0 1"
+}
+
+
+def regression_cases():
+    """moved-node-dup-unchecked (06232b2): a validated leaf moved into a list entry that has that leaf -> duplicate;
+    unique-default-not-in-use (ba1198e): two entries without the presence container on the unique path -> valid;
+    stale-nested-default-case (357db45): the last explicit node of a case freed, a default of a nested default case
+    must not satisfy the outer mandatory choice -> missing-choice"""
+    L = []
+    for tag, exp in (("moved-node-dup-unchecked", "dup"), ("unique-default-not-in-use", "0"),
+                     ("stale-nested-default-case", "nomandchoice")):
+        cmds = [c for c in REGRESSIONS[tag].split("\t")[1:] if not c.startswith("dump ")]
+        L.append("valid\t#x %s\t#r R%d\t%s" % (exp, len(cmds) - 1, "\t".join(cmds)))
     return L
 
 
@@ -759,7 +879,7 @@ class ValidMut(Oracle):
             todo = [(None, f)]
             order = list(muts)
             rng.shuffle(order)
-            for mu in order[:6]:
+            for mu in order[:6] + ([mut_unique_partial] if mut_unique_partial not in order[:6] else []):
                 for _ in range(3):
                     g = clone_forest(f)
                     cls = mu(rng, m, ig, g)
@@ -771,22 +891,22 @@ class ValidMut(Oracle):
                     if v == {cls}:
                         todo.append((cls, g))
                         break
-            kud = known_unique_default(m)
             for cls, g in todo:
-                L.append(self.case(rng, m, g, cls, kud, f0=f))
-        # XPath-dependent rules (not in the Coq models): fixed extra container
+                L.append(self.case(rng, m, g, cls, f0=f))
+        # lists with several unique statements, incomplete sets, defaults, 2..6 entries
+        for i in range(self.n(tier, 150, 3000, scale)):
+            m, g = unique_family(rng)
+            v = validenc.py_violations(m, g)
+            L.append(self.case(rng, m, g, "nouniq" if v else None))
+        # XPath-dependent rules (not in the Coq models): fixed extra modules
+        ymod = 'module m1 { yang-version 1.1; namespace "urn:verif:m1"; prefix m1;%s}' % EXTRA_YANG
         for kind in (None, "leafref", "must", "when", "instid", "iffeature"):
-            ymod = 'module m1 { yang-version 1.1; namespace "urn:verif:m1"; prefix m1;%s}' % EXTRA_YANG
-            x, j = extra_xml(kind), extra_json(kind)
-            cmds = [("mod", hexs(ymod), CTX_NO_YANGLIBRARY),
-                    ("parse", "t0", "x", PARSE_STRICT, 0, hexs(x)),
-                    ("parse", "t1", "j", PARSE_STRICT, 0, hexs(j)),
-                    ("parse", "t3", "x", PARSE_ONLY | PARSE_STRICT, 0, hexs(x)), ("val", "t3", 0, "m"),
-                    ("parse", "t4", "j", PARSE_ONLY | PARSE_STRICT, 0, hexs(j)), ("val", "t4", 0, "m")]
-            L.append(vline(["#x " + (EXTRA_CLASS[kind] if kind else "0"), "#k 0", "#r v,v,pv,pv"], cmds))
-        return L + collision_cases()
+            L.append(extra_case(ymod, extra_xml(kind), extra_json(kind), EXTRA_CLASS[kind] if kind else "0"))
+        for xml, js, cls in when_choice_instances():
+            L.append(extra_case(WHEN_CHOICE_YANG, xml, js, cls))
+        return L + collision_cases() + regression_cases()
 
-    def case(self, rng, m, g, cls, kud, f0=None):
+    def case(self, rng, m, g, cls, f0=None):
         sh = shuffled(rng, g)
         x, xs = yanggen.to_xml(g), yanggen.to_xml(sh)
         sj = shuffled(rng, g, keep_keys=False)
@@ -804,6 +924,10 @@ class ValidMut(Oracle):
             routes.append("v")
             cmds += [("parse", "t4", "j", PARSE_ONLY | PARSE_STRICT, 0, hexs(js)), ("val", "t4", 0, "m")]
             routes.append("pv")
+        if cls not in ("type", "nokey"):
+            # LYB as the source format: the parse-only tree printed as LYB, parsed with validation
+            cmds += [("parse", "t8", "x", PARSE_ONLY | PARSE_STRICT, 0, hexs(x)), ("rt", "t8", "t9", "b", 0, PARSE_STRICT, 0)]
+            routes.append("R2")
         if cls is None:
             # config/state placement: state data is refused when the caller asks for configuration only
             exp_state = "state" if any(not validenc._cfg(n.schema) for n, _, _ in yanggen.walk(g)) else "0"
@@ -828,15 +952,13 @@ class ValidMut(Oracle):
                 cmds.append(("newpath", "t5", NEWPATH_UPDATE, hexs(p), hexs(v) if v is not None else "~"))
             cmds.append(("val", "t5", 0, "m"))
             routes.append("n%d" % len(it))
-        return vline(["#x " + (cls or "0"), "#k " + ("1" if kud else "0"), "#g " + ("1" if known_stale_default(m) else "0"),
-                      "#r " + ",".join(routes)], cmds)
+        return vline(["#x " + (cls or "0"), "#r " + ",".join(routes)], cmds)
 
     def judge(self, line, out):
         if crashed(out):
             return (None, "crash: " + out)
         fields = line.split("\t")[1:]
         exp = next(x[3:] for x in fields if x.startswith("#x "))
-        kud = "#k 1" in fields
         routes = next(x[3:] for x in fields if x.startswith("#r ")).split(",")
         r = out.split(" | ")
         if r[0] != "0":
@@ -855,6 +977,23 @@ class ValidMut(Oracle):
                 if got == "0":
                     got = vclass(r[k + 1])
                 k += 2
+            elif rt[0] == "L":
+                # LYB printed from a parse-only tree and parsed with validation
+                n = int(rt[1:])
+                got = vclass(r[k + n - 1]) if all(x == "0" for x in r[k:k + n - 1]) else "setup:" + "|".join(r[k:k + n - 1])
+                k += n
+                if got == "0" and exp == "nowhen":
+                    return ("lyb-when-not-evaluated", "LYB parsed with validation: a node whose when is false is accepted")
+                if got == "other!rc=9/vecode=0" and exp == "0":
+                    return ("lyb-when-not-evaluated", "LYB parsed with validation: LY_EINCOMPLETE without a message, a must reads a "
+                                                      "node whose when was never evaluated")
+            elif rt[0] == "R":
+                # n commands: all but the last answer 0, the class of the last one is judged
+                n = int(rt[1:])
+                got = vclass(r[k + n - 1]) if all(x == "0" for x in r[k:k + n - 1]) else "setup:" + "|".join(r[k:k + n - 1])
+                if re.fullmatch(r"P\d+", r[k + n - 1]):
+                    got = exp           # the LYB printer gave up (sibling names colliding on every LYB hash: C01 lyb-hash-collision)
+                k += n
             elif rt[0] == "e":
                 n = int(rt[1:])
                 if vclass(r[k]) != "0" or any(x != "0" for x in r[k + 1:k + 1 + n]):
@@ -875,18 +1014,11 @@ class ValidMut(Oracle):
                 if got.split("!")[0] == "other":
                     got = exp           # lyd_new_path refuses some invalid constructions with its own errors
             if got != exp:
-                if rt[0] == "e" and "#g 1" in fields:
-                    return ("stale-nested-default-case", "route %s: %s, expected %s: a default node of a nested default case "
-                                                         "keeps the emptied case alive" % (rt, got, exp))
                 if got == "noinst!rc=5/vecode=9" and exp == "noinst":
                     return ("instid-notfound-rc", "instance-identifier without target: return code LY_ENOTFOUND instead of LY_EVALID")
-                if got == "nouniq" and exp == "0" and kud:
-                    return ("unique-default-not-in-use", "route %s rejected a valid instance with data-not-unique" % rt)
                 if exp == "0":
                     return (None, "route %s rejected (%s) an instance that is valid by construction" % (rt, got))
                 if got == "0":
                     return (None, "route %s accepted an instance that violates exactly the rule %s" % (rt, exp))
-                if got == "nouniq" and kud:
-                    return ("unique-default-not-in-use", "route %s: data-not-unique instead of %s" % (rt, exp))
                 return (None, "route %s: error class %s, expected %s by construction" % (rt, got, exp))
         return None
